@@ -28,7 +28,8 @@ func (eng *Engine) isModelled(name string) bool {
 
 var pureExternalPrefixes = []string{"fmt.", "errors.", "log.", "(*log.Logger).", "strconv.", "time.Now", "time.Since", "time.Unix", "(time.Time).", "(time.Duration).",
 	"math.", "strings.", "unicode.", "unicode/utf8.", "os.Getpid", "runtime.", "hash/crc32.", "context.", "math/bits.",
-	"github.com/zeebo/xxh3.", "(*pgregory.net/rand.Rand).", "pgregory.net/rand.", "(*strings.Builder).String", "path/filepath.", "reflect.TypeOf"}
+	"github.com/zeebo/xxh3.", "(*pgregory.net/rand.Rand).", "pgregory.net/rand.", "(*strings.Builder).String", "path/filepath.", "reflect.TypeOf",
+	"time.AfterFunc", "time.NewTimer", "time.NewTicker", "(*time.Timer).Stop", "(*time.Timer).Reset", "(*time.Ticker).Stop"}
 
 func (eng *Engine) isPureExternal(name string) bool {
 	for _, p := range pureExternalPrefixes {
@@ -81,6 +82,11 @@ func (e *Exec) atomicModel(st *State, ins ssa.Instruction, name string, args []V
 		return Val{}, false
 	}
 	et := pt.Elem()
+	for _, a := range args[1:] {
+		if a.T == nil {
+			return Val{}, false
+		}
+	}
 	e.assumed["sync/atomic operations treated as plain loads/stores (sequential semantics)"] = true
 	switch {
 	case strings.HasPrefix(op, "Load"):
